@@ -104,8 +104,8 @@ class FromFile(TransferComponent):
             if abs((lnT[i + 1] - lnT[i]) / (lnk[i + 1] - lnk[i])) < 0.0001:
                 start = i
                 break
-        lnT = lnT[start:-1]
-        lnk = lnk[start:-1]
+        lnT = lnT[start:]
+        lnk = lnk[start:]
 
         lnk[0] = lnkmin
         return lnk, lnT
